@@ -14,6 +14,7 @@ for cfg in ("default", "explanations", "checks", "checks_explanations"):
     for k, v in tab.items():
         out.setdefault(cfg, {})[k] = v
     out["loops:" + cfg] = C.loop_must_call_table(crate)
+    out["clos:" + cfg] = C.closure_must_call_table(crate)
     out["co:" + cfg] = C.co_exec_table(crate)
     out["ghost:" + cfg] = C.ghost_table(crate)
     out["ret:" + cfg] = C.return_table(crate)
